@@ -167,6 +167,12 @@ func createHtmlAttrs(attrs []html.Attribute) []HtmlAttribute {
 			continue
 		}
 
+		// In SVG and MathML content the HTML parser splits xmlns:prefix
+		// into the namespace "xmlns" and the key "prefix".
+		if i.Namespace == xmlns {
+			continue
+		}
+
 		name = getLocalName(name)
 
 		attr := HtmlAttribute{
